@@ -335,3 +335,29 @@ def finish(rec) -> None:
     rec.mon("log_records_seen", env.LOG.total)
     if gen.rerouted:
         rec.mon("tempo_values_rerouted", gen.rerouted)
+
+
+class yields:
+    """`with yields(p, seed) as inj:` — while this runs, a sys.monitoring LINE callback on chartparse code gives up the GIL
+    (time.sleep(0)) with probability p before a statement: thread switches then land BETWEEN two chartparse statements, where CPython
+    can really switch (no impossible interleaving is manufactured). inj.switches / inj.points say what was provoked."""
+
+    def __init__(self, p: float, seed) -> None:
+        from vmon.props import c17
+
+        self.inj = c17.Injector(p, seed)
+
+    def __enter__(self):
+        try:
+            self.inj.start()
+        except Exception:  # noqa - no sys.monitoring (or the tool id is taken): the stage runs on the switch interval alone
+            self.inj = None
+        return self.inj
+
+    def __exit__(self, *a):
+        if self.inj is not None:
+            try:
+                self.inj.stop()
+            except Exception:  # noqa
+                pass
+        return False
